@@ -24,6 +24,10 @@ CHECKS = {
    "Seeded bursts of 2-8 simultaneous mixed-protocol clients (plaintext and stub-TLS, incl. header-detected WAP) against the real ThreadingTCPServer (baton-passing threads, pre-emption at every seam call, at sampled Python lines and around every statically found store to shared module/class/server state) and the real ForkingTCPServer (simulated fork with descriptor refcounts and private module memory per child); cold start per run, optional second burst on the warm server, shared directory caches; network plans with segmentation, delays, a stalled client, a slow reader with a small send buffer, a reset. Schedules are drawn by a seeded uniform/sticky/PCT scheduler. Oracles: byte equality with the sequential reference answer, bounded liveness (answered within 1 simulated second of the last request byte whatever other clients do; probes served), reaping (no zombie, no returning child, no leaked connection reference, finished threads leave server._threads). Sampling of schedules.",
    "Trusts the simulator. Pre-emption granularity is a Python line; class objects and stdlib module state are shared between simulated children; kernel TCP/TLS/fork are stubs.",
    "deterministic simulation: seeded PCT/uniform scheduling of real worker threads and simulated forked children with line-level and shared-store-directed pre-emption, network fault plans, reference-model comparison + liveness/reaping invariants"),
+ "C07": ("exploration", "3.4",
+   "The OS enumeration order of a directory is owned by the simulator (seeded permutation at os.listdir, all n! orders for directories of up to 4 names). Seeded directories mix names on both sides of every alternative of the shipped ignore pattern, dot-files, several UMN link files (overrides of the same entry from two files, hides, additions with tying titles) and .cap overrides; both directory handlers, eight protocols, both server types. The same listing is requested under K enumeration orders and must be byte-identical; its local entries must be exactly the visible names once each plus exactly the link-file additions; every excluded name must still be served by exact selector.",
+   "Trusts the simulator and a 20-line visible-set model (dot-file, re.search(ignorepatt, selectorbase/name), Type=X in .cap or a ./ link block). One known finding (D12: plain DirHandler lists dot-files).",
+   "deterministic simulation: seeded/exhaustive readdir-order permutation at the listdir seam, determinism-across-orders oracle + independent visible-set model"),
 }
 
 NA = {
@@ -42,7 +46,6 @@ PENDING = {
  "C01": "claimed in DESIGN.md; check not built yet in this revision",
  "C02": "claimed in DESIGN.md; check not built yet in this revision",
  "C03": "claimed in DESIGN.md; check not built yet in this revision",
- "C07": "claimed in DESIGN.md; check not built yet in this revision",
  "C19": "claimed in DESIGN.md; check not built yet in this revision",
 }
 
